@@ -991,6 +991,9 @@ class Engine:
                 self.exec_block(s.body)
             except _Continue:
                 pass
+            except _Return:
+                st.ghost[f"L{ordn}_left_early"] = z3.IntVal(1)
+                raise
             except _Break:
                 st.ghost[f"L{ordn}_left_early"] = z3.IntVal(1)
                 return
@@ -1270,6 +1273,11 @@ class Engine:
                 self.exec_block(s.body)
             except _Continue:
                 pass
+            except _Return:
+                st.ghost[f"L{ordn}_left_early"] = z3.IntVal(1)      # left by `return` from inside the body
+                for k in spec.get("ghost_pre", {}):
+                    st.env[k] = genv[k]      # the iteration's start snapshots stay readable in the postcondition
+                raise
             except _Break:
                 st.ghost[f"L{ordn}_left_early"] = z3.IntVal(1)      # ghost: the loop was left by `break` before exhausting its iterable
                 return
@@ -1599,10 +1607,19 @@ class Engine:
                     # left operand (`x is not None and x < n`) is known non-None there
                     saved_env_ = dict(self.st.env)
                     self.refine(vals[idx], is_and)
+                    # ... and more generally the right operand is evaluated under what the left one established (`not r.c or
+                    # not r.c.is_alive`: r.c is not None on the right); facts learnt there are kept conditionally
+                    tcur_ = self.truth(cur)
+                    asm_ = tcur_ if is_and else z3.Not(tcur_)
+                    base_len_ = len(self.st.pc)
+                    self.st.pc.append(asm_)
                     try:
                         nv = self.ev(nxt)
                     finally:
                         self.st.env = saved_env_
+                        learnt_ = self.st.pc[base_len_ + 1:]
+                        del self.st.pc[base_len_:]
+                        self.st.pc.extend(z3.Implies(asm_, f_) for f_ in learnt_)
                     if cur.k == "bool" and nv.k == "bool":
                         cur = mk_bool(z3.And(cur.t, nv.t) if is_and else z3.Or(cur.t, nv.t))
                         continue
@@ -2031,6 +2048,15 @@ class Engine:
                 lo = self._const_idx(sl.lower, 0, len(base.t))
                 hi = self._const_idx(sl.upper, len(base.t), len(base.t))
                 return mk_tuple(base.t[lo:hi])
+            if base.k == "ilist" and sl.step is None:
+                a_, n_, _ml = base.t
+                lo = self._slice_idx(sl.lower, n_, 0)
+                hi = self._slice_idx(sl.upper, n_, 1)
+                a2 = z3.Array(fresh_name("sl_a"), z3.IntSort(), z3.IntSort())
+                qi = z3.Int(fresh_name("qi"))
+                n2 = z3.If(hi > lo, hi - lo, 0)
+                self.assume(z3.ForAll([qi], z3.Implies(z3.And(0 <= qi, qi < n2), a2[qi] == a_[qi + lo]), patterns=[a2[qi]]))
+                return V("ilist", (a2, n2, None))
             raise OutOfReach(f"slice of {base.k}")
         idx = self.ev(sl)
         if base.k == "dictv":
